@@ -908,6 +908,21 @@ func specials(thorough bool) []struct {
 	add(ref.JArr(big(), ref.JI(-32769), ref.JArr(ref.JI(-32769))))
 	add(ref.JArr(ref.JArr(ref.JI(-32769)), big(), ref.JObj([]string{"x", "yy"}, []*ref.JDoc{big(), ref.JArr(big())})))
 	add(ref.JObj([]string{"a", "bb", "ccc"}, []*ref.JDoc{ref.JArr(ref.JArr(ref.JArr(big(), ref.JI(2147483647)), ref.JU(65536))), big(), ref.JN()}))
+	// deep nesting (the server accepts 100 levels): alternating one-element
+	// arrays and one-member objects around an out-of-line string and an inlined literal
+	for _, depth := range []int{10, 50, 51, 64, 99, 100} {
+		for _, leaf := range []*ref.JDoc{ref.JS("x"), ref.JI(7), ref.JF(2.5)} {
+			d := leaf
+			for k := 0; k < depth; k++ {
+				if k%2 == 0 {
+					d = ref.JArr(d)
+				} else {
+					d = ref.JObj([]string{"k"}, []*ref.JDoc{d})
+				}
+			}
+			add(d, vNatural, vForceLarge)
+		}
+	}
 	// keys at the key-length boundaries
 	for _, kl := range []int{255, 256, 65535} {
 		add(ref.JObj([]string{rep("k", kl), "z"}, []*ref.JDoc{ref.JI(-32769), ref.JS("v")}), vNatural, vForceLarge, vPadRootLast)
